@@ -333,6 +333,9 @@ func (e *Enc) newRef(prefix string) Term {
 }
 
 func (e *Enc) encodeInstr(in ssa.Instruction) {
+	if len(e.escAt) > 0 {
+		e.noteEscapes(in)
+	}
 	switch x := in.(type) {
 	case *ssa.DebugRef:
 	case *ssa.Alloc:
